@@ -4,6 +4,7 @@ package main
 // Every random choice is drawn from the single PRNG of the run.
 
 import (
+	"regexp"
 	"fmt"
 	"strings"
 )
@@ -121,7 +122,7 @@ func (s *synth) anyType(depth int, byValue []string, allowUnion bool) string {
 	if s.p.Containers && depth < 2 {
 		add(3, func() string {
 			el := s.anyType(depth+1, s.structs, s.p.AnonUnion)
-			if s.p.NoBytes && (el == "byte" || el == "uint8") {
+			if s.p.NoBytes && s.isByteLike(el) {
 				el = "int"
 			}
 			return "[]" + el
@@ -187,6 +188,19 @@ func (s *synth) fieldTag(name string) string {
 	}
 	s.tag("tag:" + strings.SplitN(strings.ReplaceAll(sp, "k_"+strings.ToLower(name), "N"), " ", 2)[0])
 	return "`" + sp + "`"
+}
+
+// isByteLike: byte, uint8 or a type defined over them in this module (a slice of those is base64 text on the wire)
+func (s *synth) isByteLike(el string) bool {
+	if el == "byte" || el == "uint8" {
+		return true
+	}
+	name := el
+	if i := strings.LastIndex(el, "."); i >= 0 {
+		name = el[i+1:]
+	}
+	re := regexp.MustCompile(`(?m)^type ` + regexp.QuoteMeta(name) + ` (uint8|byte)\b`)
+	return re.MatchString(s.b.String()) || re.MatchString(s.o.String()) || re.MatchString(s.sub.String())
 }
 
 func (s *synth) declNamedBasic() {
@@ -398,7 +412,11 @@ func (s *synth) declContainer() {
 	switch s.r.intn(3) {
 	case 0:
 		n := s.fresh("L")
-		fmt.Fprintf(&s.b, "type %s []%s\n\n", n, s.anyType(1, s.structs, false))
+		el := s.anyType(1, s.structs, false)
+		if s.p.NoBytes && s.isByteLike(el) {
+			el = "int"
+		}
+		fmt.Fprintf(&s.b, "type %s []%s\n\n", n, el)
 		s.lists = append(s.lists, n)
 	case 1:
 		n := s.fresh("M")
